@@ -271,6 +271,42 @@ func (g *Gen) mergeInto(b *ssa.BasicBlock) *State {
 }
 
 // classifyAllocs: an Alloc is a plain local variable if its address never escapes into a value position.
+// closureOnlyReads: every use of the captured variable v inside the closure (and closures nested in it) is a load.
+func closureOnlyReads(mc *ssa.MakeClosure, v ssa.Value) bool {
+	fn, ok := mc.Fn.(*ssa.Function)
+	if !ok {
+		return false
+	}
+	for k, b := range mc.Bindings {
+		if b != v {
+			continue
+		}
+		if k >= len(fn.FreeVars) {
+			return false
+		}
+		refs := fn.FreeVars[k].Referrers()
+		if refs == nil {
+			return false
+		}
+		for _, r := range *refs {
+			switch y := r.(type) {
+			case *ssa.UnOp:
+				if y.Op != token.MUL {
+					return false
+				}
+			case *ssa.DebugRef:
+			case *ssa.MakeClosure:
+				if !closureOnlyReads(y, fn.FreeVars[k]) {
+					return false
+				}
+			default:
+				return false
+			}
+		}
+	}
+	return true
+}
+
 func (g *Gen) classifyAllocs() {
 	g.isLocal = map[*ssa.Alloc]bool{}
 	var addrOnly func(v ssa.Value) bool
@@ -298,6 +334,11 @@ func (g *Gen) classifyAllocs() {
 					return false
 				}
 			case *ssa.DebugRef:
+			case *ssa.MakeClosure:
+				// captured by a closure that only reads it: nobody else can write the variable
+				if !closureOnlyReads(x, v) {
+					return false
+				}
 			case ssa.CallInstruction:
 				// allow &x.mu passed to sync methods / atomics: treated specially
 				c := x.Common()
